@@ -145,12 +145,17 @@ def builtin_filtered_by_plain_defs(repo, caller, envs, calls):
         if body["k"] == "Unary" and body["op"] == "!" and body["expr"]["k"] == "MethodCall" and body["expr"]["method"] == "contains_key":
             r = body["expr"]["recv"]
             if r["k"] == "Path":
-                df = env.get(r["path"])
-                # the map of plain definitions: filled from iter_nonterm_defns() entries without a shell
-                if df is not None and df.node is not None:
-                    txt = [x for x in A.walk(df.node) if x["k"] == "MethodCall" and x["method"] == "iter_nonterm_defns"]
-                    if txt:
-                        return True
+                # the map of plain definitions: the local that is filled (`insert(defn.lhs_name, ..)`) inside a loop over
+                # iter_nonterm_defns() -- whether in the block that initialises it or in a loop after its declaration
+                for ins in P.find_calls(caller.body, methods={"insert"}):
+                    rv = ins["recv"]
+                    while rv["k"] in ("Ref", "Unary"):
+                        rv = rv["expr"]
+                    if rv["k"] != "Path" or rv["path"] != r["path"]:
+                        continue
+                    for g, role in A.guards_of(ins, pm):
+                        if g["k"] == "ForLoop" and "iter_nonterm_defns" in A.show(A.resolve(g["iter"], envs.get(id(g)))):
+                            return True
     return False
 
 
